@@ -20,6 +20,7 @@ import XotModel.Lemmas.CompareAllTrees
 import XotModel.Lemmas.CompareNames
 import XotModel.Lemmas.ReachCompare
 import XotModel.Lemmas.ReachHist
+import XotModel.Props.C04
 
 namespace XotModel.Props
 open XotModel
@@ -604,5 +605,132 @@ example : canon Reach.exRootA.erase ≠ canon Reach.exRootB.erase := fun h =>
 example : stringValue {} Reach.exRootA.erase = ['x'] :=
   ((C13_reachable_string_value Reach.exEnv (Reach.exCalls.take 10) (Reach.exCalls_take_wellKinded 10)
     Reach.exRootA Reach.exRootA_mem [] _ rfl (Or.inr ⟨1, rfl⟩) {}).1).trans (by decide)
+
+end XotModel.Props
+
+/-! # ================================================================================================
+    # REACHABLE TREES, histories that PARSE and edit (branch wt-reachfull)
+    # ================================================================================================
+
+  The restatements above quantify over extended API histories (`Forest.XCall` on a `Store`).  Model/FparseHist.lean
+  has the history type with BOTH kinds of step — `PCall` = an extended API call, or `parse mode text` of an
+  ARBITRARY text (reference tokenizer + builder on the tables of the store; an accepted tree is installed,
+  a rejected one leaves forest and index alone) — on `PStore`; Props/C04.lean proves the invariant for every
+  such history from `Xot::new()` (`C04_reach_full`), and `Reach.compare_hyps_root` needs the invariant only.
+  The same restatements over them: the two compared nodes are ANY two nodes of the store — of a parsed
+  document (edited or not), of a tree built by hand, of one tree or of two. -/
+
+namespace XotModel.Props
+open XotModel
+
+/-- ⟦C13_reachable_valid_full⟧ Every node of every parentless tree of every store a full history reaches —
+    parsed documents, whatever was done to them afterwards, included — satisfies the structural hypotheses
+    of this file. -/
+theorem C13_reachable_valid_full (env : Env) (cs : List PCall) (hw : ∀ c ∈ cs, c.wellKinded) :
+    ∀ r ∈ ((PStore.init env).run cs).forest.roots, ∀ (p : Path) (a : Tree),
+      r.erase.at? p = some a →
+      a.valid = true ∧ a.contentLeaves = true ∧ a.noInnerDocument = true ∧
+        a.validRootFor xpathKeep = true ∧ orderedKids a.kids = true ∧ attrNamesNodup a.kids = true :=
+  fun _ hr _ _ ha => Reach.compare_hyps_root (C04_reach_full env cs hw).1 hr ha
+
+/-- ⟦C13_reachable_iff_full⟧ **`deep_equal` is canonical-form equivalence between any two nodes of a store
+    reached by parses and API calls** (a node of a parsed document against a node of a tree built by hand,
+    …): the statement of `C13_reachable_iff`. -/
+theorem C13_reachable_iff_full (env : Env) (cs : List PCall) (hw : ∀ c ∈ cs, c.wellKinded) :
+    ∀ r₁ ∈ ((PStore.init env).run cs).forest.roots,
+    ∀ r₂ ∈ ((PStore.init env).run cs).forest.roots,
+    ∀ (p₁ p₂ : Path) (a b : Tree), r₁.erase.at? p₁ = some a → r₂.erase.at? p₂ = some b →
+      (deepEqual a b = true ↔ canon a = canon b) :=
+  fun r₁ h₁ r₂ h₂ p₁ p₂ a b ha hb =>
+    C13_iff a b (C13_reachable_valid_full env cs hw r₁ h₁ p₁ a ha).1 (C13_reachable_valid_full env cs hw r₂ h₂ p₂ b hb).1
+
+/-- ⟦C13_reachable_equivalence_full⟧ … hence an equivalence relation on the nodes of such a store. -/
+theorem C13_reachable_equivalence_full (env : Env) (cs : List PCall) (hw : ∀ c ∈ cs, c.wellKinded) :
+    (∀ r ∈ ((PStore.init env).run cs).forest.roots, ∀ (p : Path) (a : Tree),
+      r.erase.at? p = some a → deepEqual a a = true) ∧
+    (∀ r₁ ∈ ((PStore.init env).run cs).forest.roots,
+     ∀ r₂ ∈ ((PStore.init env).run cs).forest.roots,
+     ∀ (p₁ p₂ : Path) (a b : Tree), r₁.erase.at? p₁ = some a → r₂.erase.at? p₂ = some b →
+      deepEqual a b = deepEqual b a) ∧
+    (∀ r₁ ∈ ((PStore.init env).run cs).forest.roots,
+     ∀ r₂ ∈ ((PStore.init env).run cs).forest.roots,
+     ∀ r₃ ∈ ((PStore.init env).run cs).forest.roots,
+     ∀ (p₁ p₂ p₃ : Path) (a b c : Tree), r₁.erase.at? p₁ = some a → r₂.erase.at? p₂ = some b →
+      r₃.erase.at? p₃ = some c → deepEqual a b = true → deepEqual b c = true → deepEqual a c = true) :=
+  ⟨fun r h p a ha => C13_reflexive a (C13_reachable_valid_full env cs hw r h p a ha).1,
+   fun r₁ h₁ r₂ h₂ p₁ p₂ a b ha hb =>
+     C13_symmetric a b (C13_reachable_valid_full env cs hw r₁ h₁ p₁ a ha).1
+       (C13_reachable_valid_full env cs hw r₂ h₂ p₂ b hb).1,
+   fun r₁ h₁ r₂ h₂ r₃ h₃ p₁ p₂ p₃ a b c ha hb hc =>
+     C13_transitive a b c (C13_reachable_valid_full env cs hw r₁ h₁ p₁ a ha).1
+       (C13_reachable_valid_full env cs hw r₂ h₂ p₂ b hb).1 (C13_reachable_valid_full env cs hw r₃ h₃ p₃ c hc).1⟩
+
+/-- ⟦C13_reachable_variants_full⟧ The variants (`advanced_deep_equal` unfiltered, `deep_equal_children`,
+    `deep_equal_xpath`) between any two nodes of such a store: the statement of `C13_reachable_variants`. -/
+theorem C13_reachable_variants_full (env : Env) (cs : List PCall) (hw : ∀ c ∈ cs, c.wellKinded) :
+    ∀ r₁ ∈ ((PStore.init env).run cs).forest.roots,
+    ∀ r₂ ∈ ((PStore.init env).run cs).forest.roots,
+    ∀ (p₁ p₂ : Path) (a b : Tree), r₁.erase.at? p₁ = some a → r₂.erase.at? p₂ = some b →
+      (∀ cmp : TextCmp, advancedDeepEqual (fun _ => true) cmp a b = Canon.rel cmp (canon a) (canon b)) ∧
+      (deepEqualChildren a b = true ↔ (canon a).kids = (canon b).kids) ∧
+      (((a.value.isElement = true ∧ b.value.isElement = true) ∨ (a.value = .document ∧ b.value = .document)) →
+        deepEqualXpath strEq a b = deepEqual a.stripCommentsPis b.stripCommentsPis ∧
+        ∀ cmp : TextCmp, deepEqualXpath cmp a b =
+          advancedDeepEqual (fun _ => true) cmp a.stripCommentsPis b.stripCommentsPis) := by
+  intro r₁ h₁ r₂ h₂ p₁ p₂ a b ha hb
+  obtain ⟨va, la, da, xa, _, _⟩ := C13_reachable_valid_full env cs hw r₁ h₁ p₁ a ha
+  obtain ⟨vb, lb, db, xb, _, _⟩ := C13_reachable_valid_full env cs hw r₂ h₂ p₂ b hb
+  exact ⟨fun cmp => C13_advanced_all cmp a b va vb, C13_children a b va vb,
+    fun h => ⟨C13_xpath_stripped a b va vb la lb da db h,
+      fun cmp => C13_xpath_stripped_cmp cmp a b xa xb da db h⟩⟩
+
+/-- ⟦C13_reachable_string_value_full⟧ `string_value` of every document or element node of such a store: the
+    statement of `C13_reachable_string_value`. -/
+theorem C13_reachable_string_value_full (env : Env) (cs : List PCall) (hw : ∀ c ∈ cs, c.wellKinded) :
+    ∀ r ∈ ((PStore.init env).run cs).forest.roots, ∀ (p : Path) (a : Tree),
+      r.erase.at? p = some a → (a.value = .document ∨ ∃ n, a.value = .element n) →
+      ∀ env' : Env, stringValue env' a = (canon a).text ∧
+        ∀ s, textContentStr a = some s → stringValue env' a = s := by
+  intro r hr p a ha hk env'
+  obtain ⟨va, la, _⟩ := C13_reachable_valid_full env cs hw r hr p a ha
+  exact ⟨C13_string_value env' a va la hk, fun s hs => C13_text_content_string_value env' a va la hk s hs⟩
+
+/-! ### Non-vacuity: parse, edit, ask (from the tables of `Xot::new()`, `Env.fresh`)
+
+  PARSE `fullText` of Props/C04.lean, `<r xmlns:p="urn:a"><p:a>t</p:a></r>` (handles 0..4), then build by hand
+  a second tree: `new_element({urn:a}a)` (5), `new_text("t")` (6), `append`, `namespaces_mut(5).insert(p, urn:a)`
+  (7).  The PARSED inner element (path `[0, 1]` of the document) and the HAND-BUILT element differ in a
+  declaration only: `deep_equal`, by `C13_reachable_iff_full`; the document and the element are not (their
+  canonical forms differ); `string_value` of the parsed document is `t`. -/
+
+def c13FullCalls : List PCall :=
+  [.parse .document fullText, .api (.newNode (.element 3)), .api (.newNode (.text ['t'])),
+   .api (.call (.append 5 6)), .api (.call (.mapInsert .namespaces 5 (.namespace 2 2)))]
+def c13FullRootA : HTree :=
+  .node 0 .document [.node 1 (.element 2) [.node 2 (.namespace 2 2) [],
+    .node 3 (.element 3) [.node 4 (.text ['t']) []]]]
+def c13FullRootB : HTree :=
+  .node 5 (.element 3) [.node 7 (.namespace 2 2) [], .node 6 (.text ['t']) []]
+theorem c13FullCalls_wellKinded : ∀ c ∈ c13FullCalls, c.wellKinded := by decide
+theorem c13FullRoots : ((PStore.init Env.fresh).run c13FullCalls).forest.roots = [c13FullRootA, c13FullRootB] := by
+  decide +kernel
+theorem c13FullRootA_mem : c13FullRootA ∈ ((PStore.init Env.fresh).run c13FullCalls).forest.roots := by
+  rw [c13FullRoots]; exact List.mem_cons_self
+theorem c13FullRootB_mem : c13FullRootB ∈ ((PStore.init Env.fresh).run c13FullCalls).forest.roots := by
+  rw [c13FullRoots]; exact List.mem_cons_of_mem _ List.mem_cons_self
+
+example : c13FullRootA.erase.at? [0, 1] = some (.node (.element 3) [.node (.text ['t']) []]) ∧
+    c13FullRootB.erase.at? [] = some (.node (.element 3) [.node (.namespace 2 2) [], .node (.text ['t']) []]) := by
+  decide
+example : deepEqual (.node (.element 3) [.node (.text ['t']) []])
+    (.node (.element 3) [.node (.namespace 2 2) [], .node (.text ['t']) []]) = true :=
+  (C13_reachable_iff_full Env.fresh c13FullCalls c13FullCalls_wellKinded
+    c13FullRootA c13FullRootA_mem c13FullRootB c13FullRootB_mem [0, 1] [] _ _ (by decide) (by decide)).mpr rfl
+example : canon c13FullRootA.erase ≠ canon c13FullRootB.erase := fun h =>
+  absurd ((C13_reachable_iff_full Env.fresh c13FullCalls c13FullCalls_wellKinded
+    c13FullRootA c13FullRootA_mem c13FullRootB c13FullRootB_mem [] [] _ _ rfl rfl).mpr h) (by decide)
+example : stringValue {} c13FullRootA.erase = ['t'] :=
+  ((C13_reachable_string_value_full Env.fresh c13FullCalls c13FullCalls_wellKinded
+    c13FullRootA c13FullRootA_mem [] _ rfl (Or.inl rfl) {}).1).trans (by decide)
 
 end XotModel.Props
